@@ -55,12 +55,14 @@ def Op.line : Op → String
   | .makeReadOnly v => s!"ro {v}"
   | .iaddScalar v x => s!"iadds {v} {x}"
   | .iaddVector v d => s!"iaddv {v} {d}"
+  | .allocWide w cells => s!"allocw {w} {valsLine cells}"
+  | .comp v k => s!"comp {v} {k}"
 
 /-- `a = V3iArray([(0,10,20),(1,11,21),(2,12,22),(3,13,23)]); v = a[IntArray([0,1,0,1])]; c = v.x; c[1]; c[1] = 99; a[3].x`
     (op lines: the component operations are not part of `Op`) -/
-def witnessComponentLines : List String :=
-  ["allocw 3 0,10,20,1,11,21,2,12,22,3,13,23", "alloci 0,1,0,1", "getmask 0 1", "comp 2 0", "getitem 3 1",
-   "setscalar 3 i:1 99", "getitem 0 3", "getitem 0 2"]
+def witnessComponentOps : List Op :=
+  [.allocWide 3 [0, 10, 20, 1, 11, 21, 2, 12, 22, 3, 13, 23], .alloc [0, 1, 0, 1], .getmask 0 1, .comp 2 0, .getitem 3 1,
+   .setScalar 3 (.int 1) 99, .getitem 0 3, .getitem 0 2]
 
 /-- the same program on the model functions: (x components seen through `v.x`, whole storage after `v.x[1] = 99`) -/
 def witnessComponent (keepsMask : Bool) : Except Err (List Int × List Int) :=
@@ -89,6 +91,7 @@ def witnesses : List (String × List Op) :=
    ("convert-from-masked", witnessConvert),
    ("slice-empty-backward", witnessEmptyBackward),
    ("ifelse-readonly", witnessIfelseReadOnly),
-   ("mask-on-masked", witnessMaskOnMasked)]
+   ("mask-on-masked", witnessMaskOnMasked),
+   ("component-of-masked", witnessComponentOps)]
 
 end ImathVerif.FixedArray
